@@ -127,6 +127,8 @@ Set Printing Depth 100000000.
 Open Scope Z_scope.
 '''
 
+MAX_TERMS_PER_FILE = 2000
+
 def _run_shard(args):
     k, wd, preamble, terms = args
     fn = os.path.join(wd, 'cases_%d.v' % k)
@@ -153,14 +155,17 @@ def eval_terms(name, preamble, terms, shards=16):
     if n == 0:
         return [], ''
     shards = max(1, min(shards, (n + 19) // 20))
-    chunks = [[] for _ in range(shards)]
-    idx = [[] for _ in range(shards)]
+    # at most MAX_TERMS_PER_FILE terms per coqc process (each has its own time limit, so a large
+    # thorough run on a loaded machine is many short jobs for `shards` workers, not 16 long ones)
+    nchunks = max(shards, (n + MAX_TERMS_PER_FILE - 1) // MAX_TERMS_PER_FILE)
+    chunks = [[] for _ in range(nchunks)]
+    idx = [[] for _ in range(nchunks)]
     for i, t in enumerate(terms):
-        chunks[i % shards].append(t)
-        idx[i % shards].append(i)
+        chunks[i % nchunks].append(t)
+        idx[i % nchunks].append(i)
     out = [None] * n
     with flock('coqvo', shared=True), concurrent.futures.ThreadPoolExecutor(max_workers=shards) as ex:
-        for k, res, err in ex.map(_run_shard, [(k, wd, preamble, chunks[k]) for k in range(shards)]):
+        for k, res, err in ex.map(_run_shard, [(k, wd, preamble, chunks[k]) for k in range(nchunks)]):
             if res is None:
                 return None, err
             for i, r in zip(idx[k], res):
